@@ -14,8 +14,8 @@ META = {
               "include/librfn/ringbuf.h"],
     "bounds": {"quick": "every interleaving (symbolic schedule, one shared-memory access per step) of one producer doing <= 2 puts of symbolic bytes with one "
                         "consumer doing <= 2 gets under free preemption, the same under producer-as-interrupt and consumer-as-interrupt; buffer length 2..3, every "
-                        "start index, all 256 byte values; plus ringbuf_putchar / ringbuf_empty-polling agents at 2 + 2 operations",
-               "thorough": "free preemption at 3 + 3, interrupt disciplines at 4 + 4, the -O2 IR at 2 + 2, and buffer length 4"},
+                        "start index, all 256 byte values; (ringbuf_putchar / ringbuf_empty-polling agents: thorough tier)",
+               "thorough": "3 + 3 operations under all three disciplines, ringbuf_putchar / ringbuf_empty-polling agents at 2 + 2, the -O2 IR at 2 + 2, and buffer length 4"},
     "outside": ["more operations or longer rings than stated (the code depends on the length only through the wrap, exercised at every length in the bound)",
                 "several producers or several consumers (documented as unsupported)", "executions that are not sequentially consistent (C07 argues from the memory orders)"],
     "assumptions": ["clang-14's IR is the meaning of ringbuf.c; vt/ir2c.py (validated by running the repository's ringbuftest logic against its plain-mode output, see DESIGN.md)",
@@ -34,12 +34,13 @@ def q(name, disc, nput, nget, maxlen, prod="producer", cons="consumer", role="pr
 
 def queries(tier, kf):
     n, ml = (2, 3) if tier == "quick" else (3, 3)
-    ni = n if tier == "quick" else n + 1
+    ni = n
     qs = [q("c05-free-%dx%d" % (n, n), 0, n, n, ml, timeout=7200),
           q("c05-producer-irq-%dx%d" % (ni, ni), 1, ni, ni, ml, timeout=7200),
           q("c05-consumer-irq-%dx%d" % (ni, ni), 2, ni, ni, ml, timeout=7200),
-          q("c05-putchar-poll-2x2", 0, 2, 2, 3, prod="producer_putchar", cons="consumer_poll", extra={"NO_FAIL_WITNESS": None}, timeout=7200)]
+          ]
     if tier == "thorough":
+        qs.append(q("c05-putchar-poll-2x2", 0, 2, 2, 3, prod="producer_putchar", cons="consumer_poll", extra={"NO_FAIL_WITNESS": None}, timeout=7200))
         qs.append(q("c05-free-O2-2x2", 0, 2, 2, 3, opt="-O2", timeout=7200))
         qs.append(q("c05-free-len4-2x3", 0, 2, 3, 4, timeout=7200, extra={"LEN": 4}))
     cans = [("publish-first", "\trb->bufp[old_writei] = d;\n\tatomic_signal_fence(memory_order_seq_cst);\n\tatomic_store(&rb->writei, writei);",
